@@ -2,10 +2,13 @@ package base
 
 // Bounded stand-in (C16, ordering clause): sort.SliceStable is outside the verified subset, so the clause
 // "slots run in ascending Order(), insertion order on ties" is checked on the real Add*Slot functions for all
-// insertion sequences of at most N slots over 3 distinct order values. Bounded, not a proof.
+// insertion sequences of at most N slots over 3 distinct order values, plus seeded pseudo-random long sequences
+// (13 to 40 slots, long groups of equal orders followed by lower ones: the sizes at which an unstable sort first
+// differs from a stable one). Bounded, not a proof.
 
 import (
 	"fmt"
+	"math/rand"
 	"os"
 	"strconv"
 	"testing"
@@ -54,7 +57,7 @@ func TestVerifBounded(t *testing.T) {
 		if !ok {
 			bad++
 			if bad == 1 {
-				fmt.Printf("BOUNDED-COUNTEREXAMPLE insertion orders %v\n", seq)
+				fmt.Printf("BOUNDED-FAIL check=ascending-and-stable: insertion orders %v\n", seq)
 			}
 		}
 	}
@@ -68,6 +71,25 @@ func TestVerifBounded(t *testing.T) {
 		}
 	}
 	rec(nil)
+	// long sequences: library sorts switch algorithm with the length (insertion sort up to 12 elements), so short
+	// exhaustive sequences cannot tell a stable sort from an unstable one
+	for c := 0; c < 40*n; c++ {
+		rng := rand.New(rand.NewSource(int64(7000 + c)))
+		ln := 13 + rng.Intn(28)
+		seq := make([]uint32, 0, ln)
+		tie := uint32(10 * (1 + rng.Intn(3)))
+		for len(seq) < ln {
+			switch {
+			case len(seq) < 12+rng.Intn(8):
+				seq = append(seq, tie) // a long group of equal orders first
+			case rng.Intn(3) == 0:
+				seq = append(seq, uint32(5*rng.Intn(8)))
+			default:
+				seq = append(seq, tie)
+			}
+		}
+		check(seq)
+	}
 	res := "ok"
 	if bad > 0 {
 		res = "FAIL"
